@@ -43,7 +43,7 @@ Proof.
   induction items as [|i items IH]; intros Sg G n ps qs Hin; [destruct Hin|].
   destruct Hin as [->|Hin]; [reflexivity|].
   destruct i as [m d|m ps' qs']; [|reflexivity]. cbn [init_gates].
-  destruct (init_body Sg (gd_params d) (gd_qubits d) (gd_body d)) as [[|b bs]|]; try reflexivity.
+  destruct (init_body Sg (gd_params d) (gd_qubits d) (gd_body d)) as [b|]; try reflexivity.
   eapply IH; eauto.
 Qed.
 Theorem rejects_opaque p n ps qs : In (GOpaque n ps qs) (p_gates p) -> import_prog A p = None.
@@ -107,7 +107,7 @@ Proof.
   induction items as [|i items IH]; intros Sg G Sg' G' H g Hg.
   - injection H as <- <-. left. exact Hg.
   - destruct i as [m d|m ps qs]; [|discriminate]. cbn [init_gates] in H.
-    destruct (init_body Sg (gd_params d) (gd_qubits d) (gd_body d)) as [[|b bs]|]; try discriminate.
+    destruct (init_body Sg (gd_params d) (gd_qubits d) (gd_body d)) as [b|]; try discriminate.
     destruct (IH _ _ _ _ H g Hg) as [Hs|[d' Hd]].
     + cbn [sassoc] in Hs. destruct (String.eqb g m) eqn:E.
       * apply String.eqb_eq in E. subst. right. exists d. left. reflexivity.
@@ -253,7 +253,7 @@ Proof.
   destruct Hin as [->|Hin].
   - cbn [init_gates]. rewrite Hb. reflexivity.
   - destruct i as [m d'|m ps qs]; [|reflexivity]. cbn [init_gates].
-    destruct (init_body Sg (gd_params d') (gd_qubits d') (gd_body d')) as [[|b bs]|]; try reflexivity.
+    destruct (init_body Sg (gd_params d') (gd_qubits d') (gd_body d')) as [b|]; try reflexivity.
     eapply IH; eauto.
 Qed.
 (* a gate body with a repeated qubit, a qubit that is not a formal of the gate, or a parameter expression using the
